@@ -18,6 +18,8 @@ def find_args(case):
         a += ["-mindepth", str(case["mind"])]
     if case.get("maxd") is not None:
         a += ["-maxdepth", str(case["maxd"])]
+    if case.get("xdev"):
+        a.append(case["xdev"])          # "-xdev" or "-mount"
     # -depth is a global option wherever it stands: before the expression, or after it (case["post_late"])
     if case.get("post") and not case.get("post_late"):
         a.append("-depth")
@@ -44,7 +46,7 @@ def model_lines(case, cwd):
     mode = {"follow": "L", "default": "P"}.get(case["mode"], case["mode"])
     lines, ufs = [], []
     for r in case["roots"]:
-        t, uf = fstree.unfold(os.path.join(cwd, r), mode)
+        t, uf = fstree.unfold(os.path.join(cwd, r), mode, xdev=bool(case.get("xdev")))
         # report paths as find prints them: relative to cwd, as spelled
         for n in uf.nodes.values():
             if "path" in n:
@@ -95,8 +97,24 @@ class Forest:
         fstree.build(os.path.join(self.dir, name), spec)
         self.trees[name] = spec
 
+    def other_device(self):
+        """a small directory tree on another file system (/dev/shm), to be linked into the trees for -xdev; None where there is none"""
+        if getattr(self, "_other", False) is not False:
+            return self._other
+        self._other = None
+        try:
+            if os.path.isdir("/dev/shm") and os.stat("/dev/shm").st_dev != os.stat(self.dir).st_dev:
+                d = tempfile.mkdtemp(prefix="fuv-xdev-", dir="/dev/shm").encode()
+                fstree.build(os.path.join(d, b"o"), ("d", {b"of": ("f", 1), b"od": ("d", {b"g": ("f", 0)})}))
+                self._other = os.path.join(d, b"o")
+        except OSError:
+            self._other = None
+        return self._other
+
     def close(self):
         fstree.rmtree(self.dir)
+        if getattr(self, "_other", None):
+            fstree.rmtree(os.path.dirname(self._other))
 
 
 def run_cases(ctx, forest, cases, bucket_fn):
